@@ -103,3 +103,111 @@ Theorem C16_load_puzzle_fast_eq :
          load_puzzle_from_file file_name text.
 Proof. exact @load_puzzle_fast_eq. Qed.
 Print Assumptions C16_load_puzzle_fast_eq.
+
+From V Require Import Base Perm PermProofs Puzzles PuzzlesProofs.
+
+(* kernel computation, bound in the statement: the structure check holds for the cubes 2x2x2 .. 6x6x6, all four metrics *)
+Theorem C16_cube_structure_upto_6 :
+  List.forallb cube_ok (2 :: 3 :: 4 :: 5 :: 6 :: nil) = true.
+Proof. exact @cube_structure_upto_6. Qed.
+Print Assumptions C16_cube_structure_upto_6.
+
+(* what the check means: 3n layer turns, each a permutation of 6n^2 stickers of order 4 moving 4n (inner) or 4n+n^2-(n mod 2) (outer) stickers; the turns of one axis commute pairwise, have disjoint supports and together move every sticker except the two axis-face centres (n odd); QSTM/QTM/HTM/ATM generator sets are permutations and inverse-closed *)
+Theorem C16_cube_ok_meaning :
+  forall n : nat, cube_ok n = true -> CubeStructure n.
+Proof. exact @cube_ok_meaning. Qed.
+Print Assumptions C16_cube_ok_meaning.
+
+(* hence for every n in 2..6 *)
+Theorem C16_cube_structure_2_6 :
+  forall n : nat, 2 <= n <= 6 -> CubeStructure n.
+Proof. exact @cube_structure_2_6. Qed.
+Print Assumptions C16_cube_structure_2_6.
+
+(* kernel computation over all 4477 admissible tuples with ring sizes <= 12 *)
+Theorem C16_rings_structure_upto_12 :
+  List.forallb (fun '(ls, li, rs, ri) => rings_ok ls li rs ri) (ring_params 12) = true.
+Proof. exact @rings_structure_upto_12. Qed.
+Print Assumptions C16_rings_structure_upto_12.
+
+(* the enumeration covers every admissible tuple up to the bound *)
+Theorem C16_ring_params_complete :
+  forall (bound : nat) (ls li rs ri : BinNums.Z),
+         BinInt.Z.le (BinNums.Zpos (BinNums.xO BinNums.xH)) ls /\
+         BinInt.Z.le ls (BinInt.Z.of_nat bound) ->
+         BinInt.Z.le (BinNums.Zpos (BinNums.xO BinNums.xH)) rs /\
+         BinInt.Z.le rs (BinInt.Z.of_nat bound) ->
+         li = BinNums.Z0 /\ ri = BinNums.Z0 \/
+         (BinInt.Z.le (BinNums.Zpos BinNums.xH) li /\ BinInt.Z.lt li ls) /\
+         BinInt.Z.le (BinNums.Zpos BinNums.xH) ri /\ BinInt.Z.lt ri rs ->
+         List.In (ls, li, rs, ri) (ring_params bound).
+Proof. exact @ring_params_complete. Qed.
+Print Assumptions C16_ring_params_complete.
+
+(* both rotations are single cycles of the ring lengths, meet exactly in {0} / {0, left_index}, at the stated spacing; step -1 is the inverse; generator sets inverse-closed *)
+Theorem C16_rings_ok_meaning :
+  forall ls li rs ri : BinNums.Z, rings_ok ls li rs ri = true -> RingsStructure ls li rs ri.
+Proof. exact @rings_ok_meaning. Qed.
+Print Assumptions C16_rings_ok_meaning.
+
+(* hence for all admissible tuples with sizes 2..12 *)
+Theorem C16_rings_structure_2_12 :
+  forall ls li rs ri : BinNums.Z,
+         BinInt.Z.le (BinNums.Zpos (BinNums.xO BinNums.xH)) ls /\
+         BinInt.Z.le ls (BinNums.Zpos (BinNums.xO (BinNums.xO (BinNums.xI BinNums.xH)))) ->
+         BinInt.Z.le (BinNums.Zpos (BinNums.xO BinNums.xH)) rs /\
+         BinInt.Z.le rs (BinNums.Zpos (BinNums.xO (BinNums.xO (BinNums.xI BinNums.xH)))) ->
+         li = BinNums.Z0 /\ ri = BinNums.Z0 \/
+         (BinInt.Z.le (BinNums.Zpos BinNums.xH) li /\ BinInt.Z.lt li ls) /\
+         BinInt.Z.le (BinNums.Zpos BinNums.xH) ri /\ BinInt.Z.lt ri rs -> 
+         RingsStructure ls li rs ri.
+Proof. exact @rings_structure_2_12. Qed.
+Print Assumptions C16_rings_structure_2_12.
+
+(* kernel computation for all 1 <= a, b <= 6 *)
+Theorem C16_globe_structure_upto_6 :
+  List.forallb (fun '(a, b) => globe_ok a b) (List.list_prod (List.seq 1 6) (List.seq 1 6)) =
+         true.
+Proof. exact @globe_structure_upto_6. Qed.
+Print Assumptions C16_globe_structure_upto_6.
+
+(* a+1 r-generators that are single cycles of length 2b on their own row, 2b f-generators that are involutions, generator set inverse-closed *)
+Theorem C16_globe_ok_meaning :
+  forall a b : nat, globe_ok a b = true -> GlobeStructure a b.
+Proof. exact @globe_ok_meaning. Qed.
+Print Assumptions C16_globe_ok_meaning.
+
+(* hence for all a, b in 1..6 *)
+Theorem C16_globe_structure_1_6 :
+  forall a b : nat, 1 <= a <= 6 -> 1 <= b <= 6 -> GlobeStructure a b.
+Proof. exact @globe_structure_1_6. Qed.
+Print Assumptions C16_globe_structure_1_6.
+
+(* GENERAL in all ring sizes: the left rotation is a single cycle of length left_size on the points below left_size *)
+Theorem C16_rings_left_single_cycle_general :
+  forall (ls li rs ri : BinNums.Z) (lz rz : list BinNums.Z),
+         hungarian_rings_permutations ls li rs ri (BinNums.Zpos BinNums.xH) = Ok (lz, rz) ->
+         BinInt.Z.le (BinNums.Zpos (BinNums.xO BinNums.xH)) ls ->
+         SingleCycle (List.map BinInt.Z.to_nat lz) (BinInt.Z.to_nat ls) /\
+         (forall x : nat, Moved (List.map BinInt.Z.to_nat lz) x <-> x < BinInt.Z.to_nat ls).
+Proof. exact @rings_left_single_cycle_general. Qed.
+Print Assumptions C16_rings_left_single_cycle_general.
+
+(* GENERAL: _circular_shift is the rotation *)
+Theorem C16_circular_shift_nth :
+  forall (A : Type) (items : list A) (step : BinNums.Z) (d : A) (i : nat),
+         i < length items ->
+         List.nth i (circular_shift items step) d =
+         List.nth
+           (BinInt.Z.to_nat
+              (BinInt.Z.modulo (BinInt.Z.add (BinInt.Z.of_nat i) step)
+                 (BinInt.Z.of_nat (length items)))) items d.
+Proof. exact @circular_shift_nth. Qed.
+Print Assumptions C16_circular_shift_nth.
+
+(* GENERAL: the globe's row rotation is a single cycle *)
+Theorem C16_help_cyclic_single_cycle :
+  forall start fin1 n : nat,
+         start + 2 <= fin1 -> fin1 <= n -> SingleCycle (help_cyclic start fin1 n) (fin1 - start).
+Proof. exact @help_cyclic_single_cycle. Qed.
+Print Assumptions C16_help_cyclic_single_cycle.
